@@ -73,6 +73,78 @@ def run(check, prog):
     tiff_scaling(check, prog)
     depth_options(check, prog)
     load_unpacks(check, prog)
+    # per-channel metadata given as a dictionary lands on the illumination axis
+    from . import c06
+    c06.channel_axis_first(check, prog)
+    dimension_names(check, prog)
+
+
+NAME_SINKS = ('transpose', 'rename', 'stack', 'unstack', 'expand_dims', 'swap_dims')
+_FIXTURE = "def f(a):\n    return a.transpose(*np.roll(a.dims, -1))\n"
+
+
+def _numpy_names(node, aliases=('np', 'numpy')):
+    """the numpy calls inside `node` that are applied to an expression reading
+    `.dims` (names of dimensions turned into a numpy string array)"""
+    out = []
+    for x in ast.walk(node):
+        if isinstance(x, ast.Call) and isinstance(x.func, ast.Attribute) and \
+                isinstance(x.func.value, ast.Name) and x.func.value.id in aliases and \
+                any(isinstance(y, ast.Attribute) and y.attr == 'dims'
+                    for a in x.args for y in ast.walk(a)):
+            out.append(x)
+    return out
+
+
+def dimension_names(check, prog):
+    """U9: the names of dimensions stay plain Python strings.  An element of a
+    numpy string array is a numpy.str_: as a dimension name it ends up in dims, in
+    attrs['original_dims'] (make_subset_data) and from there in the yaml text of
+    the attributes, where it is written with a python-object tag that the reader
+    (yaml.safe_load) refuses.  Rule: no argument that names dimensions (transpose,
+    rename, stack, ..., dims=) is computed by a numpy function from `.dims`."""
+    def scan(tree, where):
+        sites, bad = 0, []
+        for x in ast.walk(tree):
+            if not isinstance(x, ast.Call):
+                continue
+            named = []
+            if isinstance(x.func, ast.Attribute) and x.func.attr in NAME_SINKS:
+                named = list(x.args) + [k.value for k in x.keywords]
+            named += [k.value for k in x.keywords if k.arg in ('dims', 'dim')]
+            if not named:
+                continue
+            sites += 1
+            for a in named:
+                for c in _numpy_names(a):
+                    bad.append((where, x.lineno, ast.unparse(c)))
+        return sites, bad
+    fs, fb = scan(ast.parse(_FIXTURE), 'fixture')
+    if not fb:
+        check.error('U9 fixture: the scanner no longer recognises '
+                    'a.transpose(*np.roll(a.dims, -1))')
+    total, bad = 0, []
+    for name, m in sorted(prog.modules.items()):
+        if '.tests' in name or '.third_party' in name:
+            continue
+        n, b = scan(m.tree, m.relpath)
+        total += n
+        bad += b
+    check.floor('calls that name dimensions', total, 25)
+    check.note('calls that name dimensions', '%d call sites in %d modules' % (
+        total, len(prog.modules)))
+    for where, line, src in bad:
+        check.bad('U9-dimension-names-stay-str', '%s: %s' % (where, src),
+                  'the dimension names pass through a numpy array and come back as '
+                  'numpy.str_: a multi-channel hologram from calc_holo has such a '
+                  'dimension, make_subset_data copies it into attrs["original_dims"], '
+                  'pack_attrs writes it with a python-object tag, and hp.load of the '
+                  'saved image or fit result raises ConstructorError',
+                  '%s:%d' % (where, line))
+    if not bad:
+        check.ok('U9-dimension-names-stay-str', 'package',
+                 'no dimension-naming argument is computed by numpy from .dims '
+                 '(%d call sites)' % total)
 
 
 def load_unpacks(check, prog):
